@@ -1,6 +1,6 @@
 """property -> rule sets (DESIGN §4)"""
 from engine import ok, bad, assumed, floor
-import r_lock, r_panic, r_errd, r_order, r_misc, r_nowrap, r_desc, r_registry, r_effects, r_value, r_ctx, r_parse, r_num, r_slice, r_term, r_token
+import r_lock, r_panic, r_errd, r_order, r_misc, r_nowrap, r_desc, r_registry, r_effects, r_value, r_ctx, r_parse, r_num, r_slice, r_term, r_token, r_table, r_top
 
 PROPS = {}
 
@@ -245,7 +245,7 @@ def c17(ctx):
       'HTYPED: in each of the built-in handler closures (found by role: closures escaping into a handler dyn Fn type) every Value-typed operand is consumed only through a type gate — a TACC accessor whose result is ?-propagated, '
       'a variant match whose non-selected arms all reach an Err return, Value equality, or the unchanged return value; Display / to_string / float() / an untyped helper on an operand is a violation. '
       'TACC + HTYPED => a wrongly typed operand yields an error, never a coerced value. '
-      'TOP (thorough): inside the grouped closures the arm selected by a string literal performs the operation the language assigns to that literal on (left, right) in that order, and the arm literals equal the literals the closure is registered under.',
+      'TOP: inside the grouped closures the arm selected by a string literal performs the operation the language assigns to that literal on (left, right) in that order, and the arm literals equal the literals the closure is registered under.',
       not_decided='the numeric / boolean / string results themselves (values); aggregates (AND OR in min max sum mul) are loops whose results are not decided',
       assumptions=COMMON_ASSUME)
 def c03(ctx):
@@ -256,7 +256,12 @@ def c03(ctx):
     hscope = [prog.by_id[i] for i in sorted(prog.reach([h.id for h in hs]))]
     obs += r_nowrap.rule_nowrap([b for b in hscope if not b.derived])
     obs.append(floor('HTYPED', 'builtin-handlers', len(hs), 20, 'documented built-in operators and functions'))
-    return obs, {'analysed': {'builtin_handlers': len(hs)}}
+    rows, probs = r_table.builtin_rows(prog, reg_model(ctx))
+    for fb, c, w in probs:
+        obs.append(bad('TOP', 'TOP|eval|%s' % fb.name, w, c.where(), body=fb.name))
+    obs += r_top.rule_top(prog, rows)
+    obs += r_top.rule_aggr(prog, rows)
+    return obs, {'analysed': {'builtin_handlers': len(hs), 'registered_rows': len(rows)}}
 
 
 @prop('C06',
@@ -274,6 +279,8 @@ def c06(ctx):
     obs += r_ctx.rule_ctx_store(prog, em)
     obs += r_ctx.rule_chain(prog, em)
     obs += r_order.rule_o4(em, ('child', 'handler'))
+    rows, probs = r_table.builtin_rows(prog, reg_model(ctx))
+    obs += [o for o in r_top.rule_top(prog, rows) if o.key.startswith('TOP|floor') or o.key.split('|')[-1].endswith('=') or 'cover' in o.key]
     return obs, {'analysed': {'evaluator_bodies': len(em.bodies)}}
 
 
